@@ -25,8 +25,8 @@ RULE = ("pairs of documents: equal pairs (same data, permuted keys, rebuilt tree
 ASSUMPTIONS = ["int vs float with the same numeric value is UNDETERMINED (JSON calls both 'number'): such pairs are never judged",
                "NaN is never generated",
                "XML equality is the notion stated in C12 (text modulo surrounding whitespace); CSV pairs avoid blank-row-only tables"]
-MINIMUMS = {"quick": {"equal_pairs": 700, "unequal_pairs": 4000, "cli_inprocess": 2500, "subprocess_runs": 24, "one_atom_pairs": 500},
-            "thorough": {"equal_pairs": 8000, "unequal_pairs": 50000, "cli_inprocess": 25000, "subprocess_runs": 300,
+MINIMUMS = {"quick": {"cli_on_a_terminal": 250, "equal_pairs": 700, "unequal_pairs": 4000, "cli_inprocess": 2500, "subprocess_runs": 24, "one_atom_pairs": 500},
+            "thorough": {"cli_on_a_terminal": 2000, "equal_pairs": 8000, "unequal_pairs": 50000, "cli_inprocess": 25000, "subprocess_runs": 300,
                          "one_atom_pairs": 8000}}
 
 SCALARS = [0, 1, 2, -1, 10, 255, 256, 2**31, 2**53, 2**64, 10**30, 1.5, -0.5, 2.25, 1e308, 5e-324, 1e-7, True, False, None,
@@ -264,12 +264,13 @@ def check(case, ctx):
             if case.get("cli"):
                 pa, pb = write_files(case)
                 status_on = core.case_hash(case) % 3 == 0       # default user path: status on, real file descriptors
-                res = monitors.run_main(["--color"] + ([] if status_on else ["--no-status"]) + [pa, pb] + cli_args(case),
-                                        real_files=status_on)
+                tty = core.case_hash(case) % 6 == 3             # ... or a terminal: colour is then on without being asked for
+                res = monitors.run_main((["--color"] if not tty else []) + ([] if status_on else ["--no-status"]) + [pa, pb]
+                                        + cli_args(case), real_files=status_on, tty=tty)
                 if ctx is not None:
                     ctx.count("cli_inprocess")
                     if status_on:
-                        ctx.count("cli_with_status_output_and_real_fds")
+                        ctx.count("cli_on_a_terminal" if tty else "cli_with_status_output_and_real_fds")
                 # the edit-list modes compute the exit status on a different path (get_all_edits)
                 h = core.case_hash(case) % 4
                 if h < 2:
